@@ -248,6 +248,10 @@ def invalid_trials(ex, D):
               ("SineWaves1d length mismatch", lambda: ic.SineWaves1d(1.0, (1.0, 2.0), (1,), (0.0,))),
               ("RandomSineWaves1d offset + std_one", lambda: ic.RandomSineWaves1d(1, offset_range=(0.5, 1.0), std_one=True)),
               ("RandomSineWaves1d std_one + max_one", lambda: ic.RandomSineWaves1d(1, std_one=True, max_one=True))]
+    # every shape of a non-zero offset range: one endpoint zero, symmetric about zero, degenerate, integer-typed
+    for r in ((0.0, 1.0), (-2.0, 0.0), (-1.0, 1.0), (0.5, 0.5), (0, 1), (-1, 0)):
+        trials.append((f"TFS offset_range={r} + std_one", lambda r=r: ic.RandomTruncatedFourierSeries(D, offset_range=r, std_one=True)))
+        trials.append((f"RandomSineWaves1d offset_range={r} + std_one", lambda r=r: ic.RandomSineWaves1d(1, offset_range=r, std_one=True)))
     if D > 1:
         trials.append(("RandomSineWaves1d in D>1", lambda: ic.RandomSineWaves1d(D)))
     return trials
